@@ -281,15 +281,19 @@ theorem store_keys_bounded (K : List Str) (ops : List StoreOp) (hK : ∀ k v, St
 
 /-! ### which request a validation result is stored for -/
 
-/-- what a validation writes: the freshened entry under the id it already had, or a full reply under the
-    variant id made of the URL key and the selecting values of `reqH` — the header list the handler was
-    given, which is the CLIENT's (the conditional request only goes upstream) -/
+/-- what a validation writes: the freshened entry under the id it already had, or a full reply — or the
+    stored response freshened by a 304 that changed its Vary field — under the variant id made of the URL
+    key and the selecting values of `reqH`: the header list the handler was given, which is the CLIENT's
+    (the conditional request only goes upstream) -/
 theorem validation_store_ids (cfg : Cfg) (reqH : Header) (key : Str) (stored : Entry) (refs : List Ref)
     (ri : Option Nat) (f : Freshness) (ccReq : Directives) (mv : Bool) (start : Int) (ans : OriginAns)
     (tr : List Step) (res : Result)
     (h : Run (handleValidation cfg sGET reqH key stored refs ri f ccReq mv start ans (fun r => .ret r)) tr res) :
     ∀ id en ok, Step.setEntry id en ok ∈ tr →
-      id = stored.id ∨ ∃ r t1 b, ans = .resp r t1 b ∧ id = makeVaryKey key (storedSelecting cfg reqH r) := by
+      id = stored.id ∨ ∃ r t1 b, ans = .resp r t1 b ∧
+        (id = makeVaryKey key (storedSelecting cfg reqH r) ∨
+         id = makeVaryKey key (storedSelecting cfg reqH
+                (respWith stored.resp (updateStoredHeaders (Header.del stored.resp.header sAge) r.header)))) := by
   intro id en ok hm
   unfold handleValidation at h
   simp only [] at h
@@ -299,11 +303,26 @@ theorem validation_store_ids (cfg : Cfg) (reqH : Header) (key : Str) (stored : E
     split at h
     · split at h
       · cases h; cases hm
-      · cases h with
-        | setEntry ok' h1 =>
-          cases h1
-          simp only [List.mem_cons, Step.setEntry.injEq, List.not_mem_nil, or_false] at hm
-          exact Or.inl hm.1
+      · split at h
+        · obtain ⟨t1', t2', ht, hw, hk⟩ := storeResponse_names _ _ _ _ _ _ _ _ _ _ _ _ h
+          cases hk
+          simp only [List.append_nil] at ht
+          subst ht
+          right
+          refine ⟨r, t1, bodyOk, rfl, Or.inr ?_⟩
+          rcases hw with hw | ⟨en', hw⟩ | ⟨en', rs, ok', hw, _, _⟩
+          · subst hw; cases hm
+          · subst hw
+            simp only [List.mem_cons, Step.setEntry.injEq, List.not_mem_nil, or_false] at hm
+            exact hm.1
+          · subst hw
+            simp only [List.mem_cons, Step.setEntry.injEq, reduceCtorEq, List.not_mem_nil, or_false] at hm
+            exact hm.1
+        · cases h with
+          | setEntry ok' h1 =>
+            cases h1
+            simp only [List.mem_cons, Step.setEntry.injEq, List.not_mem_nil, or_false] at hm
+            exact Or.inl hm.1
     · split at h
       · cases h; cases hm
       · split at h
@@ -312,7 +331,7 @@ theorem validation_store_ids (cfg : Cfg) (reqH : Header) (key : Str) (stored : E
           simp only [List.append_nil] at ht
           subst ht
           right
-          refine ⟨r, t1, bodyOk, rfl, ?_⟩
+          refine ⟨r, t1, bodyOk, rfl, Or.inl ?_⟩
           rcases hw with hw | ⟨en', hw⟩ | ⟨en', rs, ok', hw, _, _⟩
           · subst hw; cases hm
           · subst hw
